@@ -277,7 +277,7 @@ def run_grid(cs):
 def run(ctx):
     cs = cells()
     # 1. theorems
-    pr = vlib.coq_props('C20')
+    pr = vlib.coq_props('C20', translators=['dir_guards'])
     ctx.cov.update(obligations=len(pr['theorems']), discharged=pr['discharged'], theorems=pr['theorems'],
                    axioms=pr['axioms'],
                    checker_cmd='make -C /verif/coq props/C20.vo (coqc 8.16.1) + Print Assumptions',
